@@ -48,6 +48,11 @@ type Case struct {
 	// broker right after the last Publish returned (whatever is still
 	// undelivered may be dropped, nothing may be invented or doubled)
 	CloseBackend bool `json:"close_backend,omitempty"`
+	// Lockstep: the (single) publisher waits until every subscriber has
+	// the message before it publishes the next one, so the dispatch
+	// workers go idle after every message and each message has to wake
+	// them by itself (lossless configurations, subscribers that stay)
+	Lockstep bool `json:"lockstep,omitempty"`
 }
 
 type Redundant struct {
@@ -133,12 +138,13 @@ func runCase(c *Case) (string, string) {
 	var published atomic.Int64
 	idOf := func(p, k int) int { return p*c.Messages + k }
 	// message values are never the zero value of the element type
-	valOf := func(id int) int { return (id/c.Messages+1)*1000 + id%c.Messages }
-	idOfVal := func(v int) int { return (v/1000-1)*c.Messages + v%1000 }
+	valOf := func(id int) int { return (id/c.Messages+1)*10000 + id%c.Messages }
+	idOfVal := func(v int) int { return (v/10000-1)*c.Messages + v%10000 }
 
 	subs := make([]*subState, len(c.Subs))
 	var rwg sync.WaitGroup
 	stopReaders := make(chan struct{})
+	ack := make(chan struct{}, 16)
 	startSub := func(i int) string {
 		s := &subState{}
 		s.ch = b.Subscribe(ctx)
@@ -159,6 +165,9 @@ func runCase(c *Case) (string, string) {
 					s.got = append(s.got, v)
 					s.mu.Unlock()
 					n++
+					if c.Lockstep {
+						ack <- struct{}{}
+					}
 					if conf.UnsubscribeAfter >= 0 && n == conf.UnsubscribeAfter && s.unsubCall.Load() == 0 {
 						// from another goroutine: the subscriber keeps
 						// receiving while its Unsubscribe is in flight
@@ -216,7 +225,7 @@ func runCase(c *Case) (string, string) {
 		return ""
 	}
 	var pwg sync.WaitGroup
-	var pubErr atomic.Value
+	var pubErr, lockstepWhy atomic.Value
 	for p := 0; p < c.Publishers; p++ {
 		pwg.Add(1)
 		go func(p int) {
@@ -230,6 +239,21 @@ func runCase(c *Case) (string, string) {
 				published.Add(1)
 				if why := late(); why != "" {
 					pubErr.Store(why)
+				}
+				if c.Lockstep && (!c.filtered() || passes(valOf(id))) {
+					// every subscriber acknowledges the message the moment
+					// it has it; the next Publish follows at once, while the
+					// worker is on its way back to an empty distributor
+					tm := time.NewTimer(limit)
+					for n := 0; n < len(c.Subs); n++ {
+						select {
+						case <-ack:
+						case <-tm.C:
+							lockstepWhy.Store(fmt.Sprintf("message %d (the %d-th; Publish returned, nothing else is being published) has reached only %d of %d subscribers after %v although they all keep receiving (backlog %d)", valOf(id), k+1, n, len(c.Subs), limit, b.Stats(ctx).BufferDepth))
+							return
+						}
+					}
+					tm.Stop()
 				}
 			}
 		}(p)
@@ -252,6 +276,9 @@ func runCase(c *Case) (string, string) {
 	}
 	if why, _ := pubErr.Load().(string); why != "" {
 		return "subscribe", why
+	}
+	if why, _ := lockstepWhy.Load().(string); why != "" {
+		return "lost", why
 	}
 	published.Store(int64(total))
 	if why := late(); why != "" {
@@ -329,7 +356,7 @@ func runCase(c *Case) (string, string) {
 		seen := map[int]bool{}
 		for _, v := range got {
 			id := idOfVal(v)
-			if v < 1000 || v%1000 >= c.Messages || v/1000 > c.Publishers || pubCall[id].Load() == 0 {
+			if v < 10000 || v%10000 >= c.Messages || v/10000 > c.Publishers || pubCall[id].Load() == 0 {
 				return "invented", fmt.Sprintf("subscriber %d received %d, which was never published", i, v)
 			}
 			if c.filtered() && !passes(v) {
@@ -361,7 +388,7 @@ func runCase(c *Case) (string, string) {
 			want := must(s)
 			newest := map[int]int{}
 			for _, v := range order[i] {
-				if p, k := v/1000, v%1000; k >= newest[p] {
+				if p, k := v/10000, v%10000; k >= newest[p] {
 					newest[p] = k + 1
 				}
 			}
@@ -370,7 +397,7 @@ func runCase(c *Case) (string, string) {
 				have[v] = true
 			}
 			for v := range want {
-				if p, k := v/1000, v%1000; !have[v] && k < newest[p] {
+				if p, k := v/10000, v%10000; !have[v] && k < newest[p] {
 					return "lost", fmt.Sprintf("subscriber %d (which unsubscribed mid-stream) has not received message %d of publisher %d although it received the later message %d of that publisher: %v", i, k, p, newest[p]-1, order[i])
 				}
 			}
@@ -382,7 +409,7 @@ func runCase(c *Case) (string, string) {
 		for i, got := range order {
 			last := map[int]int{}
 			for _, v := range got {
-				p, k := v/1000, v%1000
+				p, k := v/10000, v%10000
 				if prev, ok := last[p]; ok && k < prev {
 					return "order", fmt.Sprintf("subscriber %d received message %d of publisher %d after message %d", i, k, p, prev)
 				}
@@ -425,6 +452,11 @@ func genCase(t *rapid.T) *Case {
 	if rapid.IntRange(0, 3).Draw(t, "buffered") == 0 {
 		c.BufferSize = rapid.IntRange(1, 2).Draw(t, "bufferSize")
 	}
+	if c.lossless() && rapid.IntRange(0, 4).Draw(t, "lockstep") == 0 {
+		c.Lockstep = true
+		c.Publishers = 1
+		c.Messages = rapid.IntRange(50, 3000).Draw(t, "lockstepMessages")
+	}
 	total := c.Publishers * c.Messages
 	ns := rapid.IntRange(1, 4).Draw(t, "subscribers")
 	for i := 0; i < ns; i++ {
@@ -435,12 +467,15 @@ func genCase(t *rapid.T) *Case {
 		if rapid.IntRange(0, 2).Draw(t, "leavesEarly") == 0 {
 			s.UnsubscribeAfter = rapid.IntRange(0, total).Draw(t, "unsubscribeAfter")
 		}
+		if c.Lockstep {
+			s.SubscribeAfter, s.UnsubscribeAfter = 0, -1
+		}
 		c.Subs = append(c.Subs, s)
 	}
 	for i, n := 0, rapid.IntRange(0, 3).Draw(t, "redundant")-1; i < n; i++ {
 		c.Redundant = append(c.Redundant, Redundant{After: rapid.IntRange(0, total).Draw(t, "redundantAfter"), Kind: rapid.SampledFrom([]string{"foreign", "again"}).Draw(t, "redundantKind")})
 	}
-	if c.Backend != "channel" && c.Backend != "lifo" && rapid.IntRange(0, 5).Draw(t, "closeBackend") == 0 {
+	if c.Backend != "channel" && c.Backend != "lifo" && !c.Lockstep && rapid.IntRange(0, 5).Draw(t, "closeBackend") == 0 {
 		c.CloseBackend = true
 	}
 	return c
@@ -488,6 +523,9 @@ func TestBrokerDelivery(t *testing.T) {
 		}
 		if c.CloseBackend {
 			cls = append(cls, "ends-by-closing-the-backend")
+		}
+		if c.Lockstep {
+			cls = append(cls, "lockstep-publisher")
 		}
 		vkit.CaseN(tBroker, vkit.Hash(*c), reps, (len(c.Subs) >= 2 || c.Publishers >= 2) && c.Publishers*c.Messages >= 1, cls, func() any { return *c })
 	})
